@@ -195,8 +195,11 @@ def arc_length_3point(p_start: NPPointType, p_btw: NPPointType, p_end: NPPointTy
     # (rounding can push the cosine of a half circle just below -1)
     angle = np.arccos(np.clip((rad_start.dot(rad_end)) / (mag1 * mag3), -1.0, 1.0))
 
-    # Check if the vectors define an exterior or an interior arcEdge
-    if np.dot(np.cross(rad_start, rad_btw), np.cross(rad_start, rad_end)) < 0:
+    # Check if the vectors define an exterior or an interior arcEdge:
+    # the given point lies on the interior arc only if both turns, start->given and given->end,
+    # have the sense of the (shorter) turn start->end
+    normal = np.cross(rad_start, rad_end)
+    if np.dot(np.cross(rad_start, rad_btw), normal) < 0 or np.dot(np.cross(rad_btw, rad_end), normal) < 0:
         angle = 2 * np.pi - angle
 
     return angle * norm(radius)
